@@ -77,9 +77,6 @@ def MemHolds (t : ITy) (s : State) (a : BitVec 64) (v : Int) : Prop :=
   | .i32 | .u32 => ((s.read32 a).toNat : Int) = v % 4294967296
   | .i64 | .u64 => ((s.read64 a).toNat : Int) = v % 18446744073709551616
 
-/-- the instruction `load(ty)` prints -/
-def loadSeq (t : ITy) : List Ins := (load (descr t)).flatMap Line.instrs
-
 theorem load_ok (t : ITy) (s : State) (v : Int) (h : MemHolds t s (s.get .rax) v) :
     ∃ s', X86.run (loadSeq t) s = some s' ∧ Represents t (s'.get .rax) v ∧ s'.mem = s.mem := by
   cases t <;> refine ⟨_, rfl, ?_, rfl⟩
@@ -92,9 +89,6 @@ theorem load_ok (t : ITy) (s : State) (v : Int) (h : MemHolds t s (s.get .rax) v
     generalize hq : s.read64 (s.get Reg.rax) = b64 at *
     unfold_spec
     bv_ints'
-
-/-- the instructions `store(ty)` prints -/
-def storeSeq (t : ITy) : List Ins := (store (descr t)).flatMap Line.instrs
 
 theorem store_ok (t : ITy) (s : State) (p : BitVec 64) (v : Int) (hp : s.read64 (s.get .rsp) = p)
     (h : Represents t (s.get .rax) v) :
